@@ -51,6 +51,16 @@ Section Styles.
   Definition styles_of (v : pv) : list style_id := dedup_styles [] (tvs (o_name o) (o_include o) (o_exclude o) v).
 End Styles.
 
+(* two values of the same shape: same keys, same kinds of leaves, strings of the same length -- every other string
+   (type names, css class names, reprs, tooltips, the characters of string leaves) may differ *)
+Inductive same_shape : pv -> pv -> Prop :=
+| ss_leaf : forall lk tn cn raw rep fmt tn' cn' raw' rep' fmt',
+    List.length raw = List.length raw' ->
+    same_shape (PLeaf lk tn cn raw rep fmt) (PLeaf lk tn' cn' raw' rep' fmt')
+| ss_node : forall sq tn cn fmt items tn' cn' fmt' items',
+    Forall2 (fun kc kc' => fst kc = fst kc' /\ same_shape (snd kc) (snd kc')) items items' ->
+    same_shape (PNode sq tn cn fmt items) (PNode sq tn' cn' fmt' items').
+
 Definition c_nl : N := 10.
 Fixpoint join_nl (l : list str) : str :=
   match l with [] => [] | [x] => x | x :: r => x ++ c_nl :: join_nl r end.
@@ -59,11 +69,14 @@ Definition s_html := Eval compute in str_of "html".
 Definition s_head := Eval compute in str_of "head".
 Definition s_body := Eval compute in str_of "body".
 
+Definition head_of (o : opts) (v : pv) : hnode :=
+  El s_head [] [] [Txt [c_nl]; RawEl s_style_tag (c_nl :: join_nl (map css_of (styles_of o v)) ++ [c_nl]); Txt [c_nl]].
+
 (* Html.to_str: <html> head_section body_section </html> joined by newlines *)
 Definition document (o : opts) (v : pv) : hnode :=
   El s_html [] []
     [Txt [c_nl];
-     El s_head [] [] [Txt [c_nl]; RawEl s_style_tag (c_nl :: join_nl (map css_of (styles_of o v)) ++ [c_nl]); Txt [c_nl]];
+     head_of o v;
      Txt [c_nl];
      El s_body [] [] [Txt [c_nl]; tree_view o v; Txt [c_nl]];
      Txt [c_nl]].
